@@ -27,14 +27,42 @@ use vx_ref::ds::{self as rds, Ts};
 // observation: counting source and delegating spy
 // ------------------------------------------------------------------------------------------------
 
+/// How the source answers `read`: always conforming to the `Read` contract, but possibly short.
+#[derive(Clone, Copy, Debug, PartialEq, Eq)]
+enum Src {
+    /// every read is satisfied completely
+    Whole,
+    /// at most k bytes per call
+    Chunk(usize),
+    /// one cut: the read call that would cross stream offset p returns only the bytes up to p
+    Cut(usize),
+}
+fn src_name(s: Src) -> (String, &'static str) {
+    match s {
+        Src::Whole => ("whole".into(), "whole"),
+        Src::Chunk(k) => (format!("k{k}"), ["", "chunk-1", "chunk-2", "chunk-3"][k.min(3)]),
+        Src::Cut(p) => (format!("cut{p}"), "one-cut"),
+    }
+}
+
 struct CountRead {
     data: Vec<u8>,
     at: usize,
     count: Rc<Cell<u64>>,
+    src: Src,
 }
 impl Read for CountRead {
     fn read(&mut self, buf: &mut [u8]) -> std::io::Result<usize> {
-        let n = buf.len().min(self.data.len() - self.at);
+        let mut n = buf.len().min(self.data.len() - self.at);
+        match self.src {
+            Src::Whole => {}
+            Src::Chunk(k) => n = n.min(k),
+            Src::Cut(p) => {
+                if self.at < p && self.at + n > p {
+                    n = p - self.at;
+                }
+            }
+        }
         buf[..n].copy_from_slice(&self.data[self.at..self.at + n]);
         self.at += n;
         self.count.set(self.count.get() + n as u64);
@@ -557,10 +585,10 @@ fn short(e: impl std::fmt::Display) -> String {
     format!("{e}").chars().take(200).collect()
 }
 
-fn run_tokens(ti: usize, strat: OddLengthStrategy, rd: Rd, stream: &[u8], exp: &[Exp]) -> Verdict {
+fn run_tokens(ti: usize, strat: OddLengthStrategy, rd: Rd, source: Src, stream: &[u8], exp: &[Exp]) -> Verdict {
     let count = Rc::new(Cell::new(0u64));
     let pos = Rc::new(Cell::new(0u64));
-    let src = CountRead { data: stream.to_vec(), at: 0, count: count.clone() };
+    let src = CountRead { data: stream.to_vec(), at: 0, count: count.clone(), src: source };
     let dec = StatefulDecoder::new_with_ts(src, ts_by_uid(TS4[ti]), 0).expect("decoder for an uncompressed syntax");
     let spy = Spy { inner: dec, pos: pos.clone() };
     let total = stream.len() as u64;
@@ -738,9 +766,19 @@ fn run_spec(l: &mut Local, sp: &Spec) {
         let mut stream = vec![];
         let mut exp = vec![];
         emit(ts, strat, &nodes, &mut stream, &mut exp);
+        let mut sources = vec![Src::Whole, Src::Chunk(1), Src::Chunk(2), Src::Chunk(3)];
+        if l.check.thorough() {
+            // every one-cut segmentation of the stream
+            sources.extend((1..stream.len()).map(Src::Cut));
+        }
         for rd in READERS {
+          for &source in &sources {
+            if rd == Rd::File && source != Src::Whole {
+                continue; // OpenFileOptions puts its own BufReader in front of the source
+            }
             let (reader, value_read) = rd_name(rd);
-            let case_id = format!("ts{}/{}/{}/{}/{}/{}/{}/{}", sp.ti, sp.vr, sp.l, sp.ckind, sp.place, strat_name(strat), reader, value_read);
+            let (src_id, src_class) = src_name(source);
+            let case_id = format!("ts{}/{}/{}/{}/{}/{}/{}/{}/{}", sp.ti, sp.vr, sp.l, sp.ckind, sp.place, strat_name(strat), reader, value_read, src_id);
             if !l.want(&case_id) {
                 continue;
             }
@@ -750,16 +788,16 @@ fn run_spec(l: &mut Local, sp: &Spec) {
                 // first deviation; a misaligned reader then allocates by garbage lengths. It is
                 // therefore run only on streams that the token-level DataSetReader (which it uses)
                 // reads aligned; otherwise the token-level case already reports the failure.
-                let gate = guard(|| run_tokens(sp.ti, strat, Rd::Eager(ValueReadStrategy::Preserved), &stream, &exp));
+                let gate = guard(|| run_tokens(sp.ti, strat, Rd::Eager(ValueReadStrategy::Preserved), Src::Whole, &stream, &exp));
                 if !matches!(&gate, Ok(v) if v.fail.is_none()) {
                     l.outcome("file-route-not-run-token-reader-misaligned");
                     continue;
                 }
             }
-            let r = guard(|| if rd == Rd::File { run_file(sp.ti, strat, &stream, &nodes) } else { run_tokens(sp.ti, strat, rd, &stream, &exp) });
+            let r = guard(|| if rd == Rd::File { run_file(sp.ti, strat, &stream, &nodes) } else { run_tokens(sp.ti, strat, rd, source, &stream, &exp) });
             let class = |kind: &str, at: &str| {
                 json!({"ts": ts.uid(), "vr": sp.vr, "width": sample_width(sp.vr), "content": sp.ckind, "place": sp.place, "container": if sp.place.starts_with("top") { "top" } else if sp.place.starts_with("item") { "item" } else { "pixel-data" },
-                       "strategy": strat_name(strat), "reader": reader, "value_read": value_read, "kind": kind, "at": at})
+                       "strategy": strat_name(strat), "reader": reader, "value_read": value_read, "source": src_class, "kind": kind, "at": at})
             };
             let detail = |m: String| -> Value { json!({"length": sp.l, "stream": hex(&stream), "message": m}) };
             match r {
@@ -781,16 +819,17 @@ fn run_spec(l: &mut Local, sp: &Spec) {
                     }
                 }
             }
+          }
         }
     }
 }
 
 fn main() {
     let check = Check::from_args("C07", Level::Exploration);
-    check.set_rule("streams with one odd-length element: 33 primitive VRs x L in {1,3,5,7,9} x content {value, all blank for DA/DT/TM/IS/DS} x place {top first/middle/last, in an undefined-length item first/last, in a defined-length item (odd item and sequence lengths) alone/middle, defined item in undefined sequence}; plus odd-length pixel data fragments (first/last) and an odd-length offset table item (explicit syntaxes); x 3 odd-length strategies x 3 transfer syntaxes x readers {DataSetReader x 3 value strategies, LazyDataSetReader x {into_owned x 3 value strategies, skip, read_value_into}, OpenFileOptions}; a case is one read of one stream; after every token position() == bytes consumed == the reference offset; non-trivial = the reader reached the odd-length header; distinct by case id");
+    check.set_rule("streams with one odd-length element: 33 primitive VRs x L in {1,3,5,7,9} x content {value, all blank for DA/DT/TM/IS/DS} x place {top first/middle/last, in an undefined-length item first/last, in a defined-length item (odd item and sequence lengths) alone/middle, defined item in undefined sequence}; plus odd-length pixel data fragments (first/last) and an odd-length offset table item (explicit syntaxes); x 3 odd-length strategies x 3 transfer syntaxes x readers {DataSetReader x 3 value strategies, LazyDataSetReader x {into_owned x 3 value strategies, skip, read_value_into}, OpenFileOptions} x source behaviour {every read satisfied, at most 1 / 2 / 3 bytes per read call; thorough: additionally every one-cut segmentation of the stream (the read crossing offset p returns only the bytes up to p, for every p)} (OpenFileOptions buffers internally: whole source only); a case is one read of one stream through one source; after every token position() == bytes consumed == the reference offset; non-trivial = the reader reached the odd-length header; distinct by case id");
     check.assume("vx-ref header layout functions; the expected token list and offsets are derived from the same small stream model that is encoded");
     check.assume("under NextEven the stream carries one extra byte after every odd-length value (a writer that padded but declared the unpadded length); container lengths are the declared (odd) ones");
-    check.assume("quick = thorough: the universe is enumerated completely in both tiers");
+    check.assume("the sources conform to the Read contract (short reads allowed, Ok(0) only at end of data); quick and thorough differ only in the one-cut sources");
     let specs = specs();
     check.extra("streams", json!(specs.len() * 3));
     check.par_range(specs.len() as u64, |l, i| run_spec(l, &specs[i as usize]));
